@@ -37,12 +37,17 @@ Ev == T[l]
 IsEv(a) == l <= Len(T) /\ Ev.a = a /\ l' = l + 1 /\ UNCHANGED <<tid, lay>>
 BothVariants == {"asis", "fixed"}
 
+\* relax "Plan": second pass over a trace whose commands deviate from every plan - the commands are taken as they
+\* are (only the simulated tag's semantics apply), so that the property invariants still judge the real behaviour
+Free == Relaxed("Plan")
+
 \* ---- guarded spec actions ----------------------------------------------------------------
 GBeginW ==
     /\ IsEv("Begin") /\ Ev.op = "write" /\ pc = "idle"
     /\ WellFormed(lay) /\ InScope(lay, Len(Ev.msg)) /\ lay.old = Ndef(C.old)
     /\ op' = "write" /\ msg' = Ev.msg
-    /\ IF Len(Ev.msg) > CodeCap(lay)
+    /\ IF (IF Free THEN T[l + 1].a = "Ret" /\ T[l + 1].res = "reject"      \* free mode: as the code decided
+                   ELSE Len(Ev.msg) > CodeCap(lay))
        THEN pc' = "rejected" /\ plans' = {}
        ELSE pc' = "run" /\ plans' = {Tagged(WritePlan(lay, mem, Ev.msg, v), v) : v \in BothVariants}
     /\ UNCHANGED <<mem, k, last>>
@@ -55,9 +60,6 @@ GBeginF ==
     /\ UNCHANGED <<mem, k, last>>
 
 Matching == {p \in plans : k < Len(p.cmds) /\ p.cmds[k + 1].u = Ev.u /\ p.cmds[k + 1].d = Ev.d}
-\* relax "Plan": second pass over a trace whose commands deviate from every plan - the commands are taken as they
-\* are (only the simulated tag's semantics apply), so that the property invariants still judge the real behaviour
-Free == Relaxed("Plan")
 GCmd ==
     /\ IsEv("Cmd") /\ pc = "run"
     /\ Free \/ Matching # {}
